@@ -611,3 +611,24 @@ if "C12" in PROPS:
 # thorough tiers bounded so that the whole thorough sweep completes within a session
 PROPS["C08"]["thorough"].update({"scale": 4, "timeout_s": 7200})
 PROPS["C04"]["thorough"].update({"scale": 5})
+
+# Size tails added by the generator size audit (DESIGN 12.7): appended to the rules so that the
+# evidence states the ranges that are actually generated.
+_TAILS = {
+    "C20": " Size tails (low weight): interpolation nodes up to 33, polynomial coefficient counts up to 65, Birkhoff k up to 16 with up to 5 levels, matrix dimensions up to 24, lifted dimensions up to 17.",
+    "C02": " Size tails (low weight): 9-17 holders (33 for Shamir / additive / Tassa), up to 5 levels, gate fan-in up to 9, up to 10 CNF clauses; Tassa admission n up to 24 (k = 19..21 cross the library's cut); subsets are sampled instead of enumerated above 12 holders.",
+    "C05": " Size tails (low weight): up to 12 holders and up to 9 dealings on the fast groups.",
+    "C17": " Size tails (low weight): CRT with up to 17 factors, decomposition arguments of 4095-5000 bits (the parallel switch), multi-base exponentiation with up to 17 bases.",
+    "C19": " Size tails (low weight): labels / messages of 135-4096 bytes (rate and length-prefix boundaries), up to 257 parts per append, histories of up to 33 operations, hash_to_field counts up to 32.",
+    "C16": " Size tails (low weight): homomorphic combinations of up to 17 operands, sequences of up to 16 steps, Paillier batches of up to 33 items.",
+    "C15": " Size tails (low weight): BIP-340 batch verification of up to 300 triples (window-width boundaries of the multi-scalar multiplication), BLS aggregates of up to 12 signers, same-key batches of up to 16.",
+    "C09": " Size tails (low weight): base OT with xi up to 264 and L up to 33, SoftSpoken xi up to 2048, transposition of up to 520 rows, rVOLE l up to 16 (BBOT variant up to 5).",
+    "C01": " Size tail (low weight): threshold quorums over 8-16 dealt holders for Lindell22 and Boldyreva.",
+    "C03": " Size tail (low weight): threshold key generation with 8-10 parties (dealer, Gennaro-FS, Canetti).",
+    "C10": " Quorum sizes 2-7 and a tail of 8-16.",
+    "C14": " Multi-scalar multiplication lengths up to 512 (window widths 8/9/10).",
+    "C08": " Composition arities up to 9, batch sizes up to 9.",
+}
+for _k, _v in _TAILS.items():
+    if _k in PROPS and _v not in PROPS[_k]["rule"]:
+        PROPS[_k]["rule"] = PROPS[_k]["rule"] + _v
